@@ -23,7 +23,7 @@ from models import json_lines
 
 PROP = "C17"
 FILES = ["a", "b", "d1/a", "d2/b"]
-DIRS = ["d1", "d2"]
+DIRS = ["d1", "d2", "d1/d3"]
 
 
 def snapshot(root: Path) -> list:
